@@ -104,6 +104,16 @@ class SvAdd(_FloatOp):
         return FloatDataType(data.data + addend)
 
 
+class SvJitter(_FloatOp):
+    """A stochastic operation: adds a draw from Python's global `random` generator (a Monte-Carlo style processor).
+    Reproducible exactly when the caller seeds that generator and nothing else draws from it in between."""
+
+    def _process_logic(self, data, scale: float = 1.0):
+        import random as _random
+        _invoke("SvJitter", {"scale": scale}, data)
+        return FloatDataType(data.data + scale * _random.random())
+
+
 class SvAddDefault(_FloatOp):
     """Add an addend with default."""
 
@@ -134,6 +144,15 @@ class SvAffine(_FloatOp):
     def _process_logic(self, data, gain: float, bias: float = 0.25):
         _invoke("SvAffine", {"gain": gain, "bias": bias}, data)
         return FloatDataType(data.data * gain + bias)
+
+
+class SvPoly(_FloatOp):
+    """Container-valued parameters (lists and a mapping): y = x * sum(coeffs) + sum(weights) + sum(table.values())."""
+
+    def _process_logic(self, data, coeffs: list, weights: list, table: dict = None, table2: dict = None):  # noqa: RUF013
+        _invoke("SvPoly", {"coeffs": coeffs, "weights": weights, "table": table, "table2": table2}, data)
+        extra = sum((table or {}).values()) + sum((table2 or {}).values())
+        return FloatDataType(data.data * sum(coeffs) + sum(weights) + extra)
 
 
 class SvSlow(_FloatOp):
@@ -475,7 +494,7 @@ class SvBadCtxProc(ContextProcessor):
 
 LEAF_NAMES = [
     "SvSource", "SvSourceDefault", "SvPayloadSource", "SvAdd", "SvAddDefault", "SvMul",
-    "SvMulDefault", "SvAffine", "SvSlow", "SvCaseOp", "SvScaleInPlace", "SvToStream", "SvStreamSum", "SvNeedsSubFloat", "SvRaiseOdd", "SvProbeNone", "SvWrongOutput", "SvWriteThenFail", "SvCtxWriterOpaque", "SvCtxWriterA", "SvCtxWriterB", "SvBadWriter", "SvToText",
+    "SvMulDefault", "SvAffine", "SvPoly", "SvJitter", "SvSlow", "SvCaseOp", "SvScaleInPlace", "SvToStream", "SvStreamSum", "SvNeedsSubFloat", "SvRaiseOdd", "SvProbeNone", "SvWrongOutput", "SvWriteThenFail", "SvCtxWriterOpaque", "SvCtxWriterA", "SvCtxWriterB", "SvBadWriter", "SvToText",
     "SvTextLen", "SvCollSum", "SvProbe", "SvProbeParam", "SvProbeDefault", "SvFileSink",
     "SvNullSink", "SvCtxCombine", "SvBadCtxProc",
 ]
